@@ -430,4 +430,93 @@ theorem rtoPhase_inv (v : VSock) (c : Ctx) (hd : Header) (v' : VSock) (c' : Ctx)
         obtain ⟨rfl, _, _⟩ := he
         exact ⟨h.congr rfl rfl, hf.congr rfl rfl⟩
 
+/-- **The first-transmission loop keeps both invariants** (and the state). -/
+theorem newDataLoop_inv (hd : Header) (views : List SegView) (v : VSock) (c : Ctx) (rem : Nat)
+    (v' : VSock) (c' : Ctx) (r : Option (Nat × Nat)) (h : LInv v) (hf : FInv v)
+    (hv : ∀ w ∈ views, ValidView v.segs w)
+    (hl : newDataLoop hd views v c rem = .ok (v', c', r)) : LInv v' ∧ FInv v' ∧ v'.state = v.state := by
+  induction views generalizing v c rem with
+  | nil =>
+    simp only [newDataLoop, pure, Except.pure, Except.ok.injEq, Prod.mk.injEq] at hl
+    rw [← hl.1]; exact ⟨h, hf, rfl⟩
+  | cons item rest ih =>
+    unfold newDataLoop at hl
+    split at hl
+    · split at hl <;>
+      · simp only [pure, Except.pure, Except.ok.injEq, Prod.mk.injEq] at hl
+        rw [← hl.1]; exact ⟨h, hf, rfl⟩
+    · have hitem := hv item List.mem_cons_self
+      split at hl
+      · simp [throw, throwThe, MonadExceptOf.throw] at hl
+      · rename_i v1 c1 hsd
+        obtain ⟨h1, hval⟩ := sendData_linv v c hd item v1 c1 .sent h hitem hsd
+        obtain ⟨f1, s1⟩ := sendData_finv v c hd item v1 c1 .sent h hf hitem hsd
+        obtain ⟨a, b, e⟩ := ih v1 c1 _ h1 f1 (fun w hw => hval w (hv w (List.mem_cons_of_mem _ hw))) hl
+        exact ⟨a, b, e.trans s1⟩
+      · rename_i v1 c1 hsd
+        obtain ⟨h1, _⟩ := sendData_linv v c hd item v1 c1 .pending h hitem hsd
+        obtain ⟨f1, s1⟩ := sendData_finv v c hd item v1 c1 .pending h hf hitem hsd
+        simp only [pure, Except.pure, Except.ok.injEq, Prod.mk.injEq] at hl
+        rw [← hl.1]; exact ⟨h1, f1, s1⟩
+      · rename_i v1 c1 hsd
+        obtain ⟨h1, _⟩ := sendData_linv v c hd item v1 c1 .emsgsize h hitem hsd
+        obtain ⟨f1, s1⟩ := sendData_finv v c hd item v1 c1 .emsgsize h hf hitem hsd
+        simp only [pure, Except.pure, Except.ok.injEq, Prod.mk.injEq] at hl
+        rw [← hl.1]; exact ⟨h1, f1, s1⟩
+
+/-- **…and so does the loss-recovery retransmission loop.** -/
+theorem recoveryLoop_inv (hd : Header) (mss : Nat) (views : List SegView) (v : VSock) (c : Ctx) (l : RecLoop)
+    (v' : VSock) (c' : Ctx) (l' : RecLoop) (p : Bool) (h : LInv v) (hf : FInv v)
+    (hv : ∀ w ∈ views, ValidView v.segs w)
+    (hl : recoveryLoop hd mss views v c l = .ok (v', c', l', p)) : LInv v' ∧ FInv v' ∧ v'.state = v.state := by
+  induction views generalizing v c l with
+  | nil =>
+    simp only [recoveryLoop, pure, Except.pure, Except.ok.injEq, Prod.mk.injEq] at hl
+    rw [← hl.1]; exact ⟨h, hf, rfl⟩
+  | cons seg rest ih =>
+    have hrest : ∀ w ∈ rest, ValidView v.segs w := fun w hw => hv w (List.mem_cons_of_mem _ hw)
+    unfold recoveryLoop at hl
+    split at hl
+    · simp only [pure, Except.pure, Except.ok.injEq, Prod.mk.injEq] at hl
+      rw [← hl.1]; exact ⟨h, hf, rfl⟩
+    · split at hl
+      · exact ih v c l h hf hrest hl
+      · split at hl
+        · simp only [pure, Except.pure, Except.ok.injEq, Prod.mk.injEq] at hl
+          rw [← hl.1]; exact ⟨h, hf, rfl⟩
+        · have hseg := hv seg List.mem_cons_self
+          split at hl
+          · simp [throw, throwThe, MonadExceptOf.throw] at hl
+          · simp [throw, throwThe, MonadExceptOf.throw] at hl
+          · rename_i v1 c1 hsd
+            obtain ⟨h1, _⟩ := sendData_linv v c hd seg v1 c1 .pending h hseg hsd
+            obtain ⟨f1, s1⟩ := sendData_finv v c hd seg v1 c1 .pending h hf hseg hsd
+            simp only [pure, Except.pure, Except.ok.injEq, Prod.mk.injEq] at hl
+            rw [← hl.1]; exact ⟨h1, f1, s1⟩
+          · rename_i v1 c1 hsd
+            obtain ⟨h1, hval⟩ := sendData_linv v c hd seg v1 c1 .sent h hseg hsd
+            obtain ⟨f1, s1⟩ := sendData_finv v c hd seg v1 c1 .sent h hf hseg hsd
+            obtain ⟨a, b, e⟩ := ih v1 c1 _ h1 f1 (fun w hw => hval w (hrest w hw)) hl
+            exact ⟨a, b, e.trans s1⟩
+
+/-- Stepping `last_sent_seq_nr` back to just before the FIN (what the recovery branch of `send_tx_queue` and the RTO
+path do to have the FIN sent again) keeps `LInv`: under `FInv` that number is the last queued segment's (or
+`snd_una - 1` with an empty queue). -/
+theorem fin_stepback_linv (v : VSock) (fin : Nat) (h : LInv v) (hf : FInv v) (hfin : v.state.ourFinIfUnacked = some fin)
+    (w : VSock) (e1 : w.segs = v.segs) (e2 : w.lastSentSeqNr = wsub fin 1) : LInv w := by
+  obtain ⟨hfe, htu⟩ := hf fin hfin
+  have hl := h.len
+  have e : wsub fin 1 = off v.segs.sndUna ((v.segs.segs.length : Int) - 1) := by
+    rw [hfe, wsub_one_off _ (off_lt _ _), off_off]; rfl
+  have hs2 : seqSub (off v.segs.sndUna ((v.segs.segs.length : Int) - 1)) v.segs.sndUna = (v.segs.segs.length : Int) - 1 :=
+    seqSub_off _ _ h.una (by omega)
+  constructor
+  · rw [e1]; exact h.sinv
+  · rw [e1]; exact h.una
+  · rw [e2, e]; exact off_lt _ _
+  · rw [e1]; exact hl
+  · rw [e1, e2, e, hs2]; omega
+  · rw [e1, e2, e, hs2]; omega
+  · rw [e1, e2, e, hs2, htu]; omega
+
 end UtpVerif.Props.C17Fin
